@@ -8,8 +8,7 @@ driven exhaustively over a small scope with multi-byte collisions."""
 from .. import stream, termstream
 from . import common
 
-FACTS = ["file_runtime_src_", "file_codegen_src_string_rs", "file_codegen_src_char_rule_rs",
-         "file_codegen_src_extern_rule_rs", "lit_fast", "range_fast", "insens_guard"]
+FACTS = common.CODEGEN_FILES
 
 
 def check(out, ctx):
